@@ -13,6 +13,7 @@ CONFIG = {
         "name": "codec", "pkg": "./agreement/", "run": "^TestVerifC40$",
         "files": ["agreement/zz_verif_c40_test.go", "util/verifbounds/reg.go"],
         "util": [("agreement", "agreement")],
+        "search_tier": "quick",   # violation search after a proof / correspondence break: more seeds of the quick mix
         "env": {"quick": {"VERIF_C40_N": 30}, "thorough": {"VERIF_C40_N": 600}},
         "timeout": {"quick": 900, "thorough": 3000},
     }],
